@@ -165,6 +165,45 @@ def run(ctx):
                 keys.append("path-segment-only-writable-with-its-namespace")
             ctx.fail({"source": text, "mode": "raw"}, prob, expected="parse(render(t)) == t",
                      observed=detail, keys=keys, cls="raw-spelling", sig=[prob, sorted(keys), text.split("/")[0][:6] if keys else text])
+    # every code point an identifier may contain, inside field names / namespaces / lambda variables
+    import re as _re
+    wordy = [c for c in range(0x80, 0x110000) if _re.fullmatch(r"\w", chr(c))]
+    batch = ctx.pick(400, 100)
+    j = 0
+    for fr in ("a%sb", "xs/any(v%s: v%s/k eq 1), q%s", "n%s.f, a/b%s"):
+        for k in range(0, len(wordy), batch):
+            j += 1
+            if not ctx.mine(j):
+                continue
+            chars = [chr(c) for c in wordy[k:k + batch]]
+
+            def text_of(chs, fr=fr):
+                # flat: all identifiers are arguments of ONE custom call (no deep nesting)
+                return "my.f(" + ", ".join(fr.replace("%s", ch) for ch in chs) + ")"
+            ctx.count("evaluations")
+            ctx.count("identifier_codepoints_swept", len(chars))
+            ctx.cls("identifier-codepoint-sweep")
+            prob, detail = trip(text_of(chars))
+            if prob is None or prob == "source-rejected" and len(chars) == 1:
+                continue
+            while len(chars) > 1:
+                h = len(chars) // 2
+                pa = trip(text_of(chars[:h]))[0]
+                if pa is not None:
+                    chars = chars[:h]
+                    continue
+                pb = trip(text_of(chars[h:]))[0]
+                if pb is not None:
+                    chars = chars[h:]
+                    continue
+                break
+            prob, detail = trip(text_of(chars))
+            if prob in (None, "source-rejected"):
+                ctx.count("source_rejected")
+                continue
+            ctx.fail({"source": text_of(chars), "mode": "raw", "codepoints": ["U+%04X" % ord(c) for c in chars[:4]]}, prob,
+                     expected="parse(render(t)) == t", observed=repr(detail)[:300], cls="identifier-codepoint-sweep",
+                     sig=["id-sweep", prob, fr[:6]])
     # every code point inside the quoted literal kinds whose content is free text
     block = ctx.pick(4096, 512)
     j = 0
